@@ -62,6 +62,18 @@ let pair a b =
 let both a b =
   (Some a, Some b)
 
+let bothG a b =
+  ({V=a; Vs=[a]}, {V=b; Vs=[b; b]})
+
+let getGI (g:G<int>) =
+  g.V
+
+let getGS (g:G<string>) =
+  slice.Length g.Vs |> frt.Sprintf1 "%d" |> strings.AppendHead g.V
+
+let nestO a b =
+  Some (Some a, Some b)
+
 let gv = 40 + 2
 
 let zzUseImports () =
@@ -83,6 +95,12 @@ func PreludeProgram() *Program {
 		FuncDef{Name: "konst", Params: []Param{{Name: "a"}, {Name: "b"}}, Body: B(Var{"a"})},
 		FuncDef{Name: "pair", Params: []Param{{Name: "a"}, {Name: "b"}}, Body: B(Tuple{[]Expr{Var{"a"}, Var{"b"}}})},
 		FuncDef{Name: "both", Params: []Param{{Name: "a"}, {Name: "b"}}, Body: B(Tuple{[]Expr{Ctor{Case: "Some", Arg: Var{"a"}}, Ctor{Case: "Some", Arg: Var{"b"}}}})},
+		FuncDef{Name: "bothG", Params: []Param{{Name: "a"}, {Name: "b"}}, Body: B(Tuple{[]Expr{
+			RecordLit{Rec: "G", Fields: []FieldInit{{"V", Var{"a"}}, {"Vs", SliceLit{[]Expr{Var{"a"}}}}}},
+			RecordLit{Rec: "G", Fields: []FieldInit{{"V", Var{"b"}}, {"Vs", SliceLit{[]Expr{Var{"b"}, Var{"b"}}}}}}}})},
+		FuncDef{Name: "getGI", Params: []Param{{Name: "g"}}, Body: B(Field{Var{"g"}, "V"})},
+		FuncDef{Name: "getGS", Params: []Param{{Name: "g"}}, Body: B(BinOp{"|>", BinOp{"|>", call("slice.Length", Field{Var{"g"}, "Vs"}), call("frt.Sprintf1", StrLit{"%d"})}, call("strings.AppendHead", Field{Var{"g"}, "V"})})},
+		FuncDef{Name: "nestO", Params: []Param{{Name: "a"}, {Name: "b"}}, Body: B(Ctor{Case: "Some", Arg: Tuple{[]Expr{Ctor{Case: "Some", Arg: Var{"a"}}, Ctor{Case: "Some", Arg: Var{"b"}}}}})},
 		VarDef{Name: "gv", Rhs: BinOp{"+", IntLit{40}, IntLit{2}}},
 	}}
 }
